@@ -86,3 +86,7 @@ impl EncoderValue for StreamsBlocked {
         buffer.encode(&self.stream_limit);
     }
 }
+
+#[cfg(all(aws_s2n_quic_verif, test))]
+#[path = "/verif/harness/core/frame_streams_blocked.rs"]
+mod verif;
